@@ -238,7 +238,8 @@ pub fn run(ctx: &Ctx) -> Report {
         }
     }
     let leaked: &'static TimeZone = Box::leak(Box::new(TimeZone::from_tz_data(&files[0]).unwrap_or_else(|_| TimeZone::utc())));
-    let strings: Vec<String> = IANA_FOOTERS.iter().map(|s| s.to_string()).chain(["garbage".to_string(), "EST5EDT".to_string()]).collect();
+    // TZ values of every shape (descriptions, file names, ':' values, "localtime", empty): all resolution paths are inside the window
+    let strings: Vec<String> = IANA_FOOTERS.iter().map(|s| s.to_string()).chain(crate::mon::c20::VALUES.iter().map(|s| s.to_string())).chain(["garbage".to_string(), "EST5EDT".to_string()]).collect();
     let shared = Shared { zones, leaked, files, strings };
 
     let rounds = ctx.n(3, 12);
